@@ -6,6 +6,7 @@ package main
 import (
 	"fmt"
 	"go/types"
+	pathpkg "path"
 	"strconv"
 	"strings"
 
@@ -514,10 +515,70 @@ func (w *World) registerIntrinsics() {
 		re := e.load(p).(*OpaqueVal).data.(*compiledRegex)
 		return mkInRe(e.bytesTerm(a[1]), re.lang)
 	}
+	I["(*regexp.Regexp).FindStringSubmatchIndex"] = func(e *Exec, fn *ssa.Function, a []Value) Value {
+		re := e.load(a[0].(*Pointer)).(*OpaqueVal).data.(*compiledRegex)
+		sv, ok := str(a[1]).strVal()
+		if !ok {
+			// symbolic subject: nil iff no match; otherwise arbitrary ordered offsets inside the
+			// string (exact enough for callers that only test for nil or read no groups)
+			if !e.branch(mkInRe(str(a[1]), re.lang)) {
+				return &SliceVal{isNil: true}
+			}
+			var vs []Value
+			n := 2 * (re.native.NumSubexp() + 1)
+			lo := e.fresh("submatch", SInt)
+			hi := e.fresh("submatch", SInt)
+			e.assume(mkAnd(mkGe(lo, mkInt(0)), mkLe(lo, hi), mkLe(hi, mkLen(str(a[1])))))
+			vs = append(vs, lo, hi)
+			for i := 2; i < n; i++ {
+				x := e.fresh("submatch", SInt)
+				e.assume(mkAnd(mkGe(x, mkInt(-1)), mkLe(x, mkLen(str(a[1])))))
+				vs = append(vs, x)
+			}
+			return e.mkSlice(types.Typ[types.Int], vs)
+		}
+		idx := re.native.FindStringSubmatchIndex(sv)
+		if idx == nil {
+			return &SliceVal{isNil: true}
+		}
+		var vs []Value
+		for _, i := range idx {
+			vs = append(vs, mkInt(int64(i)))
+		}
+		return e.mkSlice(types.Typ[types.Int], vs)
+	}
+	I["(*regexp.Regexp).NumSubexp"] = func(e *Exec, fn *ssa.Function, a []Value) Value {
+		re := e.load(a[0].(*Pointer)).(*OpaqueVal).data.(*compiledRegex)
+		return mkInt(int64(re.native.NumSubexp()))
+	}
+	I["(*regexp.Regexp).SubexpNames"] = func(e *Exec, fn *ssa.Function, a []Value) Value {
+		re := e.load(a[0].(*Pointer)).(*OpaqueVal).data.(*compiledRegex)
+		var vs []Value
+		for _, n := range re.native.SubexpNames() {
+			vs = append(vs, mkStr(n))
+		}
+		return e.mkSlice(types.Typ[types.String], vs)
+	}
 	I["(*regexp.Regexp).String"] = func(e *Exec, fn *ssa.Function, a []Value) Value {
 		p := a[0].(*Pointer)
 		re := e.load(p).(*OpaqueVal).data.(*compiledRegex)
 		return mkStr(re.pattern)
+	}
+	// path.Clean: exact on constants; on a symbolic rooted path without empty or dot segments
+	// it only drops a trailing slash (precondition established by the harness)
+	I["path.Clean"] = func(e *Exec, fn *ssa.Function, a []Value) Value {
+		p := str(a[0])
+		if sv, ok := p.strVal(); ok {
+			return mkStr(pathpkg.Clean(sv))
+		}
+		seg := reConcat(reLit("/"), reUnion(
+			reConcat(reDiffChars("/."), reStar(reDiffChars("/"))),              // does not start with a dot
+			reConcat(reLit("."), reDiffChars("/."), reStar(reDiffChars("/"))),  // .x
+			reConcat(reLit(".."), reDiffChars("/"), reStar(reDiffChars("/"))))) // ..x
+		clean := reUnion(reLit("/"), reConcat(seg, reStar(seg), reOpt(reLit("/"))))
+		e.requireStub(mkInRe(p, clean), "path.Clean argument is a rooted path without empty or dot segments")
+		n := mkLen(p)
+		return mkIte(mkAnd(mkGt(n, mkInt(1)), mkSuffixOf(mkStr("/"), p)), mkSubstr(p, mkInt(0), mkSub(n, mkInt(1))), p)
 	}
 	I["regexp.QuoteMeta"] = func(e *Exec, fn *ssa.Function, a []Value) Value {
 		if sv, ok := str(a[0]).strVal(); ok {
@@ -1076,8 +1137,14 @@ var opaqueUF = map[string]bool{"HMAC": true, "SHA256": true, "SHA1": true, "Enc"
 
 // exposes reports whether sec occurs in t at a position that is not below an
 // opaque application.  Everything that is not opaque counts as transparent
-// (concatenation, slicing, base64/hex, msgpack, lz4, URL escaping ...).
+// (concatenation, slicing, base64/hex, msgpack, lz4, URL escaping ...).  An
+// encryption whose key is itself exposed in the whole observable (root) is
+// transparent too: whoever sees the observable can decrypt it.
 func exposes(t, sec *Term, seen map[*Term]bool) bool {
+	return exposesIn(t, t, sec, seen, 0)
+}
+
+func exposesIn(root, t, sec *Term, seen map[*Term]bool, depth int) bool {
 	if seen[t] {
 		return false
 	}
@@ -1088,6 +1155,11 @@ func exposes(t, sec *Term, seen map[*Term]bool) bool {
 	if strings.HasPrefix(t.op, "uf:") {
 		n := strings.TrimPrefix(t.op, "uf:")
 		if opaqueUF[n] || strings.HasPrefix(n, "CFB_") {
+			// keyed encryption with a key the observer can read off the observable
+			if (n == "Enc" || n == "CFBenc") && depth < 3 && len(t.args) == 3 && !t.args[0].isConst() &&
+				exposesIn(root, root, t.args[0], map[*Term]bool{}, depth+1) {
+				return exposesIn(root, t.args[2], sec, seen, depth)
+			}
 			return false
 		}
 	}
@@ -1095,7 +1167,7 @@ func exposes(t, sec *Term, seen map[*Term]bool) bool {
 		return false // lengths and comparison outcomes are not the value
 	}
 	for _, a := range t.args {
-		if exposes(a, sec, seen) {
+		if exposesIn(root, a, sec, seen, depth) {
 			return true
 		}
 	}
